@@ -224,6 +224,21 @@ func EnumShapes(pkgPrefix, goPrefix string) []EnumShape {
 		f.Messages = []*spec.Message{{Name: "Order", Fields: []*spec.Field{spec.FE("status", 1, "."+pkg+".Status"), spec.FE("phase", 2, "."+pkg+".Phase")}}}
 		return []*spec.File{ef}
 	})
+	// an enum whose values are NOT declared in ascending number order, used number-encoded by one file's
+	// service and name-encoded by another file's service (the enum lives in a third, shared file)
+	mk("non-ascending-numbers/number-and-name-users", func(pkg string, f *spec.File) []*spec.File {
+		dir := strings.TrimSuffix(f.Path, "defs.proto")
+		// three Go packages (two service files in ONE Go package do not build on the unchanged tree, recorded under C13)
+		common := &spec.File{Path: dir + "common.proto", Package: pkg, GoImport: f.GoImport + "common", GoName: f.GoName + "common"}
+		common.Enums = []*spec.EnumDef{{Name: "Priority", Values: []spec.EnumValue{{Name: "PRIORITY_UNSPECIFIED", Num: 0}, {Name: "PRIORITY_LOW", Num: 1}, {Name: "PRIORITY_MEDIUM", Num: 3}, {Name: "PRIORITY_HIGH", Num: 2}, {Name: "PRIORITY_URGENT", Num: 9}, {Name: "PRIORITY_LATER", Num: 4}}}}
+		tickets := &spec.File{Path: dir + "tickets.proto", Package: pkg, GoImport: f.GoImport + "tickets", GoName: f.GoName + "tickets", Imports: []string{common.Path}}
+		tickets.Messages = []*spec.Message{{Name: "Ticket", Fields: []*spec.Field{spec.F("id", 1, spec.String), spec.FE("priority", 2, "."+pkg+".Priority").With(func(a *spec.Ann) { a.EnumEnc = 2 })}}}
+		tickets.Services = []*spec.Service{{Name: "TicketService", Methods: []*spec.Method{{Name: "GetTicket", In: "." + pkg + ".Ticket", Out: "." + pkg + ".Ticket", HTTP: &spec.HTTP{Path: "/tickets", Verb: 2}}}}}
+		f.Imports = []string{common.Path}
+		f.Messages = []*spec.Message{{Name: "Alert", Fields: []*spec.Field{spec.F("id", 1, spec.String), spec.FE("priority", 2, "."+pkg+".Priority"), spec.FE("history", 3, "."+pkg+".Priority").Rep()}}}
+		f.Services = []*spec.Service{{Name: "AlertService", Methods: []*spec.Method{{Name: "GetAlert", In: "." + pkg + ".Alert", Out: "." + pkg + ".Alert", HTTP: &spec.HTTP{Path: "/alerts", Verb: 2}}}}}
+		return []*spec.File{common, tickets}
+	})
 	mk("with-service", func(pkg string, f *spec.File) []*spec.File {
 		f.Enums = []*spec.EnumDef{customEnum("Status", "STATUS")}
 		f.Messages = []*spec.Message{{Name: "Order", Enums: []*spec.EnumDef{customEnum("Kind", "KIND")}, Fields: []*spec.Field{spec.FE("status", 1, "."+pkg+".Status"), spec.FE("kind", 2, "."+pkg+".Order.Kind")}}}
